@@ -701,6 +701,7 @@ func schedOne(a schedArg) TaskResult {
 	res.Counters[fmt.Sprintf("scenarios_completed_bound_%d", completed)] = 1
 	if completed < maxB && len(res.Viols) == 0 {
 		res.Counters["capped_scenarios"] = 1
+		res.Counters[fmt.Sprintf("capped: %s: completed bound %d, %d executions, %d choice points", name, completed, res.Evals, res.Counters["max_choice_points"])] = 1
 	}
 	res.Counters["distinct_outcomes"] = len(outcomes)
 	res.Distinct = append(res.Distinct, name)
